@@ -19,21 +19,14 @@ theorem wfgStruct_at {S : Schema} {d : StructDef} (h : wfgStruct S d = true) {f 
   have := h f hf
   exact ⟨this.1.1, this.1.2, this.2⟩
 
-theorem pyObjOk_at {r : Rec} {d : StructDef} {vs : List (String × Val)} (h : pyObjOk r d vs = true) {f : Field}
-    (hf : f ∈ d.fields) :
-    StoreOk vs f ∧ (∀ ty lim, f.kind = .ref ty lim → condOnObject r d.fields vs f = .ok true →
-      Val.get vs f.name ≠ some .none) := by
+theorem pyObjOk_at {d : StructDef} {vs : List (String × Val)} (h : pyObjOk d vs = true) {f : Field}
+    (hf : f ∈ d.fields) : StoreOk vs f := by
   unfold pyObjOk at h
   simp only [List.all_eq_true] at h
   have := h f hf
-  refine ⟨⟨?_, ?_⟩, ?_⟩
-  · intro e m a p k l hk hv
-    simp only [hk, hv, decide_eq_true_eq] at this
-    exact this
-  · intro w s t hk hv
-    simp [hk, hv] at this
-  · intro ty lim hk hp hv
-    simp [hk, hp, hv] at this
+  intro e m a p k l hk hv
+  simp only [hk, hv, decide_eq_true_eq] at this
+  exact this
 
 /-- the members of an object of the right shape have unmangled names -/
 theorem namesOk_of_shape {S : Schema} {d : StructDef} {vs : List (String × Val)} (hg : wfgStruct S d = true)
@@ -70,8 +63,7 @@ theorem base_facts (hwf : WF S = true) (hwg : WFG S = true) {name : String} {d :
 
 /-- the `size` property of the emitted class computes the interpreter's struct size -/
 theorem emittedSize_eq (hwf : WF S = true) (hwg : WFG S = true) {name : String} {d : StructDef}
-    (hfind : S.find name = some (.struct d)) {vs : List (String × Val)} (hshape : shapeOk d vs = true)
-    (hobj : pyObjOk r d vs = true) :
+    (hfind : S.find name = some (.struct d)) {vs : List (String × Val)} (hshape : shapeOk d vs = true) :
     emittedSize S T r d vs = structSize r d vs := by
   have hw := wfStruct_iff (WF_struct hwf hfind)
   have hg := WFG_struct hwg hfind
@@ -89,7 +81,7 @@ theorem emittedSize_eq (hwf : WF S = true) (hwg : WFG S = true) {name : String} 
     obtain ⟨hn, -, hc⟩ := wfgStruct_at hg hfd
     refine ⟨cond_eval hvs (fun g hgm => ⟨(wfgStruct_at hg hgm).1, (wfgStruct_at hg hgm).2.1⟩) hfd hc _, ?_⟩
     intro hp
-    exact size_eval hvs hn (fun ty lim hk => (pyObjOk_at hobj hfd).2 ty lim hk hp) _
+    exact size_eval hvs hn _
   unfold emitSizeClass
   cases hb : d.base with
   | none =>
@@ -121,18 +113,18 @@ theorem emittedSize_eq (hwf : WF S = true) (hwg : WFG S = true) {name : String} 
     · unfold condAst
       simp only [hcn, evalGuard, hp]
     · intro _
-      exact size_eval hvs (wfgStruct_at hga hf).1 (fun ty lim hk => (pyObjOk_at hobj hfd).2 ty lim hk hp) _
+      exact size_eval hvs (wfgStruct_at hga hf).1 _
 
 /-- `serialize()` of the emitted class computes the interpreter's struct encoding -/
 theorem emittedSerialize_eq (hwf : WF S = true) (hwg : WFG S = true) {name : String} {d : StructDef}
     (hfind : S.find name = some (.struct d)) {vs : List (String × Val)} (hshape : shapeOk d vs = true)
-    (hobj : pyObjOk r d vs = true) :
+    (hobj : pyObjOk d vs = true) :
     emittedSerialize S T r d vs = encStruct S T r d vs := by
   have hw := wfStruct_iff (WF_struct hwf hfind)
   have hg := WFG_struct hwg hfind
   have hvs := namesOk_of_shape hg hshape
   unfold emittedSerialize encStruct
-  rw [emittedSize_eq hwf hwg hfind hshape hobj]
+  rw [emittedSize_eq hwf hwg hfind hshape]
   have hown : Rel2 (fun (s : SerStmt) f =>
       evalGuard { S := S, T := T, calls := r, vs := vs, selfSize := structSize r d vs } s.cond = condOnObject r d.fields vs f ∧
       (condOnObject r d.fields vs f = .ok true →
@@ -144,7 +136,7 @@ theorem emittedSerialize_eq (hwf : WF S = true) (hwg : WFG S = true) {name : Str
     obtain ⟨hn, hk, hc⟩ := wfgStruct_at hg hfd
     refine ⟨cond_eval hvs (fun g hgm => ⟨(wfgStruct_at hg hgm).1, (wfgStruct_at hg hgm).2.1⟩) hfd hc _, ?_⟩
     intro _
-    exact store_eval hvs (FindCompat.refl d) hn hk (pyObjOk_at hobj hfd).1
+    exact store_eval hvs (FindCompat.refl d) hn hk (pyObjOk_at hobj hfd)
   unfold emitSerializeClass
   cases hb : d.base with
   | none =>
@@ -177,7 +169,7 @@ theorem emittedSerialize_eq (hwf : WF S = true) (hwg : WFG S = true) {name : Str
       simp only [hcn, evalGuard, hp]
     · intro _
       obtain ⟨hn, hk, -⟩ := wfgStruct_at hga hf
-      exact store_eval hvs (findCompat_prefix hsplit) hn hk (pyObjOk_at hobj hfd).1
+      exact store_eval hvs (findCompat_prefix hsplit) hn hk (pyObjOk_at hobj hfd)
 
 end
 end SymbolVerif.Codec
